@@ -25,7 +25,7 @@ Import ListNotations.
 
 IMPORTS = ("Scalar Outcome Support Poly Spline Ops Forms Generator Interp Spec Spec_Ops Spec_Gen "
            "Proofs_Support Proofs_Scalar Proofs_Poly Proofs_Binom Proofs_Eval Proofs_Outcome Proofs_Spline "
-           "Proofs_Forms Proofs_Ops Proofs_Forms2 Proofs_Interp Proofs_Pred Proofs_Gen Instances Instances_Ext Proofs_Valid Solver Pool Quad Proofs_Pool Proofs_Quad Proofs_Sites Proofs_Rounded Proofs_Threads Proofs_Updates Examples Proofs_Examples Proofs_Analysis Proofs_SupportGen Proofs_Smooth")
+           "Proofs_Forms Proofs_Ops Proofs_Forms2 Proofs_Interp Proofs_Pred Proofs_Gen Instances Instances_Ext Proofs_Valid Solver Pool Quad Proofs_Pool Proofs_Quad Proofs_Sites Proofs_Rounded Proofs_Threads Proofs_Updates Examples Proofs_Examples Proofs_Analysis Proofs_SupportGen Proofs_Smooth Proofs_Laws")
 
 TABLE = {
     "C02": ("evaluation returns the value of the stored piecewise polynomial", """
@@ -95,6 +95,21 @@ TABLE = {
         ("C05_additive", "Proofs_Ops.dsem_add"),
         ("C05_homogeneous", "Proofs_Ops.dsem_scale"),
         ("C05_factor_on_other_grid", "Proofs_Ops.apply_differing"),
+        ("C05_law_product", "Proofs_Laws.law_product"),
+        ("C05_law_sum", "Proofs_Laws.law_sum"),
+        ("C05_law_difference", "Proofs_Laws.law_difference"),
+        ("C05_law_scalar_left", "Proofs_Laws.law_scalar_left"),
+        ("C05_law_scalar_right", "Proofs_Laws.law_scalar_right"),
+        ("C05_law_add_scalar", "Proofs_Laws.law_add_scalar"),
+        ("C05_law_scalar_add", "Proofs_Laws.law_scalar_add"),
+        ("C05_law_sub_scalar", "Proofs_Laws.law_sub_scalar"),
+        ("C05_law_scalar_sub", "Proofs_Laws.law_scalar_sub"),
+        ("C05_law_div_scalar", "Proofs_Laws.law_div_scalar"),
+        ("C05_law_neg", "Proofs_Laws.law_neg"),
+        ("C05_law_spline_factor", "Proofs_Laws.law_spline_factor"),
+        ("C05_law_spline_factor_is_product", "Proofs_Laws.law_spline_factor_den_eq"),
+        ("C05_law_commutator", "Proofs_Laws.law_commutator"),
+        ("C05_law_identity", "Proofs_Laws.law_identity"),
     ]),
     "C06": ("bilinear forms equal the exact integral of the two transformed splines", """
    defint p h is the antiderivative difference over [-h, h] (C06_defint_is_integral).""", [
